@@ -258,7 +258,7 @@ impl ConcreteReadableShape for Multipoint {
         bbox_read_xy_from(&mut bbox, source)?;
 
         let num_points = source.read_i32::<LittleEndian>()?;
-        if record_size == Self::size_of_record(num_points) as i32 {
+        if num_points >= 0 && record_size == Self::size_of_record(num_points) as i32 {
             let points = read_xy_in_vec_of::<Point, T>(source, num_points)?;
             Ok(Self { bbox, points })
         } else {
@@ -335,10 +335,10 @@ impl ConcreteReadableShape for MultipointM {
 
         let num_points = source.read_i32::<LittleEndian>()?;
 
-        let size_with_m = Self::size_of_record(num_points, true) as i32;
-        let size_without_m = Self::size_of_record(num_points, false) as i32;
+        let size_with_m = Self::size_of_record(num_points.max(0), true) as i32;
+        let size_without_m = Self::size_of_record(num_points.max(0), false) as i32;
 
-        if (record_size != size_with_m) & (record_size != size_without_m) {
+        if num_points < 0 || ((record_size != size_with_m) & (record_size != size_without_m)) {
             Err(Error::InvalidShapeRecordSize)
         } else {
             let m_is_used = size_with_m == record_size;
@@ -429,10 +429,10 @@ impl ConcreteReadableShape for MultipointZ {
         bbox_read_xy_from(&mut bbox, source)?;
         let num_points = source.read_i32::<LittleEndian>()?;
 
-        let size_with_m = Self::size_of_record(num_points, true) as i32;
-        let size_without_m = Self::size_of_record(num_points, false) as i32;
+        let size_with_m = Self::size_of_record(num_points.max(0), true) as i32;
+        let size_without_m = Self::size_of_record(num_points.max(0), false) as i32;
 
-        if (record_size != size_with_m) & (record_size != size_without_m) {
+        if num_points < 0 || ((record_size != size_with_m) & (record_size != size_without_m)) {
             Err(Error::InvalidShapeRecordSize)
         } else {
             let m_is_used = size_with_m == record_size;
